@@ -1,6 +1,10 @@
 package drv
 
 import (
+	"crypto/x509"
+	"github.com/google/go-tdx-guest/abi"
+	pb "github.com/google/go-tdx-guest/proto/tdx"
+	"github.com/google/go-tdx-guest/verify"
 	"math/rand"
 	"os"
 	"path/filepath"
@@ -184,10 +188,35 @@ func RunCcelCase(cs map[string]any, id int, seed int64, bits int) Result {
 			pol.TdQuoteBodyOptions.MinimumTeeTcbSvn = m
 		}
 		msg := MsgFromQuote(c.Q)
+		if v := cs["v"].(string); v == "intelNilPool" || v == "intelEmptyPool" {
+			// the genuine sample quote under Intel's own chain, at a time inside the chain's validity
+			q, err := abi.QuoteToProto(append([]byte{}, s.quote...))
+			if err != nil {
+				panic(err)
+			}
+			msg = q.(*pb.QuoteV4)
+			ch, err := verify.ExtractChainFromQuote(msg)
+			if err != nil {
+				panic(err)
+			}
+			at := ch.PCKCertificate.NotBefore.Add(24 * time.Hour)
+			vo := &verify.Options{Now: &verify.TimeSet{PckCertChain: at, PckCrl: at, RootCaCrl: at, TcbInfo: at, QeIdentity: at}}
+			if v == "intelEmptyPool" {
+				vo.TrustedRoots = x509.NewCertPool()
+			}
+			opts.Verification = vo
+		}
+		logBytes := s.log
+		switch cs["lg"] {
+		case "empty":
+			logBytes = []byte{}
+		case "nil":
+			logBytes = nil
+		}
 		var st *state.FirmwareLogState
 		out := Guard(30*time.Second, func() error {
 			var err error
-			st, err = rtmr.ParseCcelWithTdQuote(s.log, s.table, msg, &opts)
+			st, err = rtmr.ParseCcelWithTdQuote(logBytes, s.table, msg, &opts)
 			return err
 		})
 		result := ""
